@@ -34,6 +34,7 @@ def get_strategy_base():
             self._calls = {}
             self._plan = None
             self._decl = {'sl': None, 'tp': None}   # latest declaration (for C10)
+            self._decl_at = {'sl': None, 'tp': None}   # event sequence number of that declaration
             self._decl_seq = 0
             self._c.scratch.setdefault('strategies', {})[self._sim_route] = self
 
@@ -156,6 +157,31 @@ def get_strategy_base():
             else:
                 side = sides
             price = float(self.price)
+            # decisions that depend on what the strategy can read of the candles (not only on the price)
+            if pr.get('data_gate'):
+                dr = self._c.spec.get('data_routes') or []
+                if dr:
+                    d = dr[int(self._uu('should', 'gate_route', 0.0) * len(dr)) % len(dr)]
+                    try:
+                        arr = self.get_candles(self.exchange, d['symbol'], d['timeframe'])
+                        self._c.count('data_gate_reads')
+                        if len(arr) < 2 or not (arr[-1][2] >= arr[-2][2]):
+                            self._c.count('data_gate_blocked')
+                            return None
+                    except Exception:
+                        self._c.count('data_gate_read_raised')
+                        return None
+            anchor = price
+            if pr.get('ohlc_entries'):
+                try:
+                    cd = self.candles
+                    if len(cd) >= 1:
+                        last = cd[-1]
+                        which = int(self._uu('should', 'anchor', 0.0) * 3)
+                        anchor = float((last[4], last[3], last[1])[which % 3])   # low / high / open of the last trading candle
+                        self._c.count('ohlc_anchored_entries')
+                except Exception:
+                    anchor = price
             styles = pr['entry_styles']
             style = styles[int(self._uu('should', 'style', 0.0) * len(styles)) % len(styles)]
             frac = pr['size_frac'] * (0.3 + 0.7 * self._uu('should', 'frac', 1.0))
@@ -171,7 +197,7 @@ def get_strategy_base():
                 dk = 1 + int(self._uu('should', 'dk', 0.0) * dist)
                 better = (style == 'limit')
                 sign = -1 if (side == 'long') == better else 1
-                rows = [(1.0, self._lat(price, sign * dk))]
+                rows = [(1.0, self._lat(anchor, sign * dk))]
             else:  # ladder / mixed
                 n = 2 + int(self._uu('should', 'n', 0.0) * 3)
                 for i in range(n):
@@ -182,7 +208,7 @@ def get_strategy_base():
                         sign = -1 if self._uu('should', f'sg{i}', 0.0) < 0.5 else 1
                         if self._uu('should', f'mk{i}', 1.0) < 0.25:
                             dk = 0
-                    rows.append((1.0, self._lat(price, sign * dk) if dk else price))
+                    rows.append((1.0, self._lat(anchor, sign * dk) if dk else price))
                 # distinct prices only (identical rows are legal but make attribution ambiguous)
                 seen = set()
                 rows = [r for r in rows if not (r[1] in seen or seen.add(r[1]))]
@@ -280,6 +306,8 @@ def get_strategy_base():
                     self.stop_loss = rows if len(rows) > 1 else rows[0]
                 else:
                     self.take_profit = rows if len(rows) > 1 else rows[0]
+                if rows != self._decl[kind]:      # an identical re-declaration is no modification
+                    self._decl_at[kind] = self._c.seq
                 self._decl[kind] = rows
                 self._decl_seq += 1
                 self._c.count(f'declared_{kind}')
@@ -304,6 +332,7 @@ def get_strategy_base():
 
         def _after_entry_decl(self, side, rows):
             self._decl = {'sl': None, 'tp': None}
+            self._decl_at = {'sl': None, 'tp': None}
             pr = self._prog
             if self.exchange_type == 'futures' and pr['exit_in_go']:
                 qty = sum(D(q) for q, _ in rows)
@@ -321,6 +350,7 @@ def get_strategy_base():
                     else:
                         self.take_profit = rws if len(rws) > 1 else rws[0]
                     self._decl[kind] = rws
+                    self._decl_at[kind] = self._c.seq
                     self._c.count(f'declared_{kind}_in_go')
 
         def should_cancel_entry(self):
@@ -339,6 +369,7 @@ def get_strategy_base():
             if not ok:
                 self._c.count('filter_rejected')
                 self._decl = {'sl': None, 'tp': None}
+                self._decl_at = {'sl': None, 'tp': None}
             return ok
 
         # ------------------------------------------------------------------ position events
@@ -377,6 +408,7 @@ def get_strategy_base():
         def on_close_position(self, order):
             self._enter_hook('close')
             self._decl = {'sl': None, 'tp': None}
+            self._decl_at = {'sl': None, 'tp': None}
             self._observe('on_close_position', str(order.id))
 
         def on_cancel(self):
@@ -394,8 +426,10 @@ def get_strategy_base():
                 # mirror the declaration liquidate() makes
                 if self.position.pnl > 0:
                     self._decl['tp'] = [(abs(float(self.position.qty)), float(self.price))]
+                    self._decl_at['tp'] = self._c.seq
                 else:
                     self._decl['sl'] = [(abs(float(self.position.qty)), float(self.price))]
+                    self._decl_at['sl'] = self._c.seq
                 self._decl_seq += 1
             elif u < pr['p_liquidate'] + pr['p_modify']:
                 w = int(self._uu('upd', 'which', 0.0) * 3)
@@ -554,6 +588,8 @@ def gen_program(st, exchange_type, profile=None):
         'hp_decl': None,
         'dna': None,
         'raise_at': None,
+        'ohlc_entries': st.chance(0.3, 'ohlc'),
+        'data_gate': st.chance(0.3, 'dgate'),
     }
     prog.update(profile)
     if exchange_type == 'spot':
